@@ -66,6 +66,13 @@ func Names(ls []Letter) []string {
 func search(rep *report.Report, label string, o *Options, depth int, dl time.Time) mc.Result {
 	res := mc.BFS(mc.Config{Letters: Names(o.Letters), New: New(o), MaxDepth: depth, Deadline: dl, Workers: 1})
 	ribhist.Merge(rep, label, res, depth)
+	rep.Add("evaluations", res.Transitions)
+	for i, n := range res.PerLetter {
+		l := o.Letters[i]
+		if l.K == kClose || l.K == kAbort || (l.K == kGet && l.GetK >= 0) || (l.K == kOps && l.Cut != codes.OK) {
+			rep.Add("distinct_nontrivial", n)
+		}
+	}
 	return res
 }
 
@@ -87,3 +94,51 @@ func RunC09(rep *report.Report, tier string) {
 }
 
 var _ = codes.OK
+
+func c10Letters(n int, thorough bool) []Letter {
+	var ls []Letter
+	for s := 0; s < n; s++ {
+		ls = append(ls, Letter{Name: fmt.Sprintf("s%d open", s), K: kOpen, S: s})
+		ls = append(ls, Letter{Name: fmt.Sprintf("s%d params", s), K: kParams, S: s, P: pOK})
+		ls = append(ls, Letter{Name: fmt.Sprintf("s%d election %v", s, ID{Lo: uint64(s + 1)}), K: kElect, S: s, ID: ID{Lo: uint64(s + 1)}})
+		for _, e := range []string{"ADD nh1", "ADD nhg1{1}", "ADD v4->1", "ADD nh2"} {
+			ls = append(ls, Letter{Name: fmt.Sprintf("s%d op[%s]", s, e), K: kOps, S: s, Ops: []OpT{{entry(e), stOwn}}})
+		}
+		batch := []OpT{{entry("ADD nh1"), stOwn}, {entry("ADD nh2"), stOwn}, {entry("ADD nhg1{1}"), stOwn}, {entry("ADD v4->1"), stOwn}}
+		ls = append(ls, Letter{Name: fmt.Sprintf("s%d ops[ADD nh1, ADD nh2, ADD nhg1, ADD v4] then cancel at once", s), K: kOps, S: s, Ops: batch, Cut: codes.Canceled})
+		ls = append(ls, Letter{Name: fmt.Sprintf("s%d ops[ADD nh1, ADD nh2] then transport failure at once", s), K: kOps, S: s, Ops: batch[:2], Cut: codes.Unavailable})
+		ls = append(ls, Letter{Name: fmt.Sprintf("s%d half-close", s), K: kClose, S: s})
+		ls = append(ls, Letter{Name: fmt.Sprintf("s%d cancel", s), K: kAbort, S: s, Code: codes.Canceled})
+		ls = append(ls, Letter{Name: fmt.Sprintf("s%d transport-failure", s), K: kAbort, S: s, Code: codes.Unavailable})
+	}
+	ks := []int{0, 1, 2}
+	if thorough {
+		ks = append(ks, 3)
+	}
+	for _, k := range ks {
+		ls = append(ls, Letter{Name: fmt.Sprintf("get(all,ALL) abandoned after %d responses (cancel)", k), K: kGet, GetK: k, GetAFT: spb.AFTType_ALL, Code: codes.Canceled})
+		ls = append(ls, Letter{Name: fmt.Sprintf("get(DEFAULT,NEXTHOP) abandoned after %d responses (transport failure)", k), K: kGet, GetNI: D, GetK: k, GetAFT: spb.AFTType_NEXTHOP, Code: codes.Unavailable})
+	}
+	ls = append(ls, Letter{Name: "get(all,ALL) read to the end", K: kGet, GetK: -1, GetAFT: spb.AFTType_ALL})
+	return ls
+}
+
+// RunC10 decides C10.
+func RunC10(rep *report.Report, tier string) {
+	dl := ribhist.Budget(tier, 100*time.Second, 20*time.Minute)
+	n, depth := 1, 6
+	if tier == "thorough" {
+		n, depth = 2, 7
+	}
+	ls := c10Letters(n, tier == "thorough")
+	rep.Set("alphabet", Names(ls))
+	rep.Set("rule", "cases are (history, letter) pairs executed on a fresh real server, histories being the shortest representatives of the distinct canonical server states; non-trivial = the letter is a fault (half-close, cancel, transport failure, request cut right after sending, Get abandoned after k responses), each followed by the state comparison and the liveness probe")
+	o := &Options{Letters: ls, Sessions: n, Checks: Checks{Disconnect: true}}
+	search(rep, fmt.Sprintf("faults/%d-sessions/from-empty", n), o, depth, dl)
+	// from a populated server: primary established with a chain of entries and a second next-hop installed
+	l1 := c10Letters(1, false)
+	init := []Letter{l1[0], l1[1], l1[2], l1[3], l1[6], l1[4], l1[5]} // open, params, election, nh1, nh2, nhg1, v4
+	ls2 := c10Letters(2, tier == "thorough")
+	o2 := &Options{Letters: ls2, Sessions: 2, Checks: Checks{Disconnect: true}, Init: init}
+	search(rep, "faults/2-sessions/from-chain-installed", o2, depth-3, dl)
+}
